@@ -126,7 +126,7 @@ class Check:
             json.dump(ev, fh, indent=1, default=repr)
         print('%s tier=%s seed=%d: %d evaluations, %d distinct non-trivial, %d states, %d trace events validated, '
               '%d violations, %d known-finding cases, %.1fs' % (
-                  self.pid, self.tier, self.seed, cov['evaluations'], cov['distinct_nontrivial'], cov['states'],
+                  self.pid, self.tier, self.seed, cov['evaluations'], cov['distinct_nontrivial'], cov.get('states', 0),
                   cov['traces_validated_against_impl'], len(violations),
                   sum(len(v) for v in matched.values()), time.time() - self.t0))
         return rc
